@@ -1239,3 +1239,45 @@ mod table_tests {
         );
     }
 }
+
+/// Introspection for the verification hooks (`--cfg raindb_verif` only).
+#[cfg(raindb_verif)]
+impl Table {
+    /// The entries of the index block: (separator key, encoded block handle).
+    pub(crate) fn verif_index_entries(&self) -> Vec<(InternalKey, Vec<u8>)> {
+        let mut entries = vec![];
+        let mut iter = self.index_block.iter();
+        if iter.seek_to_first().is_err() {
+            return entries;
+        }
+        while let Some((key, handle)) = iter.current() {
+            entries.push((key.clone(), handle.clone()));
+            iter.next();
+        }
+        entries
+    }
+
+    /// The entries of the data block at the provided encoded handle and the handle's offset.
+    pub(crate) fn verif_block_entries(
+        &self,
+        raw_handle: &Vec<u8>,
+    ) -> TableReadResult<(u64, Vec<(InternalKey, Vec<u8>)>)> {
+        let block_handle = BlockHandle::try_from(raw_handle)?;
+        let reader = self.get_block_reader(&ReadOptions::default(), &block_handle)?;
+        let mut entries = vec![];
+        let mut iter = reader.iter();
+        iter.seek_to_first()?;
+        while let Some((key, value)) = iter.current() {
+            entries.push((key.clone(), value.clone()));
+            iter.next();
+        }
+        Ok((block_handle.get_offset(), entries))
+    }
+
+    /// Consult the filter block, if the table has one.
+    pub(crate) fn verif_filter_may_match(&self, block_offset: u64, user_key: &[u8]) -> Option<bool> {
+        self.maybe_filter_block
+            .as_ref()
+            .map(|filter| filter.key_may_match(block_offset, user_key))
+    }
+}
